@@ -39,7 +39,7 @@ DEVIATIONS = {
 
 def base_constants(**kw):
     c = dict(ALG='lru', MAXSIZE=2, PURGE=False, SAFE=False, QMULT=10, NX=4,
-             ARGS={1, 2, 3, 4}, OPS={'call'}, NARCH=0, DEPTH=8, Deviations=set(), Props=set())
+             ARGS={1, 2, 3, 4}, OPS={'call'}, NARCH=0, DEPTH=8, Deviations=set(), Props=set(), UNKEYAT='keymap')
     c.update(kw)
     return c
 
@@ -316,7 +316,10 @@ class CacheRun(object):
             else:
                 backends.append(rng.choice(pers))
         kms = [('str', True, False), ('hash-md5', True, False), ('default',)]
-        kms.append(('raw', True, False))
+        if not safe:
+            kms.append(('raw', True, False))
+        elif consts.get('UNKEYAT') == 'lookup':
+            kms = [('raw', True, False)]        # the only keymap whose key can be built from an unhashable argument
         out = []
         for b in backends:
             if self.tier == 'thorough' or wide:
@@ -324,6 +327,8 @@ class CacheRun(object):
             else:
                 ks = [rng.choice(kms)]
             for km in ks:
+                if b == 'sql' and safe and consts.get('UNKEYAT') == 'lookup':
+                    continue                      # (raw keys are not scalars: not a key the sqlite table accepts)
                 if b == 'sql' and km[0] in ('raw', 'default') and not (safe and km[0] == 'default'):
                     km = ('str', True, False)     # sqlite keys must be scalars
                 out.append((module, b, km, safe))
@@ -456,7 +461,8 @@ def plan_common(run, pid, algs, ops, args, narchs=(0, 1), purges=(False,), safes
                     purge = run.rng.choice(list(purges)) if narch else False
                     gens.append(base_constants(ALG=alg, MAXSIZE=ms, PURGE=purge, SAFE=safe, QMULT=10,
                                                ARGS=set(args) | ({run_unkey(4)} if safe else set()),
-                                               OPS=set(ops), NARCH=narch))
+                                               OPS=set(ops), NARCH=narch,
+                                               UNKEYAT='lookup' if safe and (len(gens) % 3 == 0) else 'keymap'))
     num = sim_num[1] if thorough else sim_num[0]
     dep = sim_depth[1] if thorough else sim_depth[0]
     with ThreadPoolExecutor(max_workers=common.NCPU) as ex:
@@ -727,6 +733,10 @@ def check_C01(tier):
                     variants=('plain', 'plain', 'ignore_y', 'tol0'))
     scenario_probes(run, {'compaction', 'clear', 'peek'}, backends=('plain', 'dictarch', 'file'))
     scenario_recursive(run, 1000 if t else 150)
+    # arguments whose keys are longer than a file name may be and agree on a long prefix (directory archives drop such
+    # entries - C03's known finding - so they are recomputed: the answers must still be right)
+    scenario_random(run, ALLALG, ['std', 'safe'], ['dir', 'direct-dir', 'file', 'dictarch'], 600 if t else 100, 30 if t else 22,
+                    variants=('long',), keymaps=[('raw', True, False), ('str', True, False), ('pickle-repr', True, False), ('hash-md5', True, False)])
     # the same property on the key engine's catalogue of signatures, spellings, keymaps and callables (partials, methods,
     # functions sharing a code object): the returned value is compared with the function's own value for that call
     from . import key_checks
